@@ -199,6 +199,8 @@ def writes_of(evs):
         if e.startswith("W@") or e.startswith("WX@"):
             head, payload = e.split(":", 1)
             out.append((int(head.split("@")[1]), unhx(payload), e.startswith("WX")))
+        elif e.startswith("W:"):                     # model events carry no delivery offset
+            out.append((-1, unhx(e[2:]), False))
     return out
 
 def calls_of(evs):
